@@ -90,10 +90,14 @@ SEEDS = {
               'thread B runs the unlocked test after A\'s test and before A\'s assignment', ['C20']),
     'C20-2': ('failed open resets active_in_thread',
               'thread A creates a store, then a constructor call of A fails inside _open, then thread B creates', ['C20']),
-    'C02-1': ('', '', ['C02']),
-    'C02-2': ('', '', ['C02']),
-    'C17-1': ('', '', ['C17']),
-    'C17-2': ('', '', ['C17']),
+    'C02-1': ('overstep computed from the last waypoint with the leg\'s departure azimuth',
+              'a valid table whose descent is shallower than the top-of-descent guess (flight oversteps the destination) on a route that is not meridional/equatorial', ['C02', 'C15']),
+    'C02-2': ('make_point indexes the capacity-sized buffer again',
+              'step fractions giving a phase hand-over at a point count above 50 that is not a multiple of 50', ['C02']),
+    'C17-1': ('starting mass cached on the builder by mission label (ignores load factor)',
+              'one builder, two flights with the same origin/destination/aircraft type but different load factors', ['C17']),
+    'C17-2': ('one Weather object per builder + date recorded before the file is opened',
+              'use_weather on a reused builder: a flight rejected for missing weather followed by a flight with the identical departure timestamp', ['C17']),
 }
 
 
@@ -104,6 +108,8 @@ def archive(sid: str):
     dst.mkdir(parents=True, exist_ok=True)
     if src.exists():
         for f in ('demo.py', 'notes.txt'):
+            if f == 'demo.py' and (dst / 'demo.orig.py').exists():
+                continue  # demo.py was adapted here; the seeder's own is demo.orig.py
             if (src / f).exists():
                 shutil.copy(src / f, dst / f)
         orig = (src / 'patch.diff').read_text()
@@ -145,6 +151,7 @@ def meta(sid: str):
         'needs_to_manifest': needs,
         'applies_to_repo_commit': head,
         'ported': (dst / 'patch.orig.diff').exists(),
+        'demo_adapted': (dst / 'demo.orig.py').exists(),
         'confirmed': {
             'command': f'tools/eval_seed.sh seeded/{sid} {" ".join(checks)}',
             'test_suite_with_change': tests.group(1) if tests else None,
